@@ -194,7 +194,7 @@ INFO = {
         "rulefn": _c20_rule,
         "trusted": ["floating point (f64) is NOT modelled: lllRat is an exact-rational replay of the control flow, compared with the implementation only on runs where no decision is within 1e-6 (scaled for ill-conditioning) of its threshold; the harness prints f64 outputs as integers only when they are exact integers below 2^53",
                     "closed forms for the number of roots of unity: re-verified in Lean for cyclotomic (f = Phi_n by polynomial products), real-root witnesses and imaginary quadratic fields; a few totally complex fields are literature values"],
-        "gaps": ["B' LLL-reduced (delta = 3/4, eta = 1/2 up to 1e-6), exactness/completeness of find_short_vectors and the unit count of find_muk are not implied by any theorem about f64: decided on every explored output by the proved-sound exact checkers (Spec.Lll.isReduced, Spec.Enum.shortVectors, closed forms over repeated random starts)", "termination of lll; Newton convergence from random starts", "for nearly dependent bases with entries above ~3*10^4 the f64 implementation returns bases that are not reduced (mu off by whole units): outside the explored domain of the property (entries up to 10^4); H and B' = H*B still hold there"],
+        "gaps": ["B' LLL-reduced (delta = 3/4, eta = 1/2 up to 1e-6), exactness/completeness of find_short_vectors and the unit count of find_muk are not implied by any theorem about f64: decided on every explored output by the proved-sound exact checkers (Spec.Lll.isReduced, Spec.Enum.shortVectors, closed forms over repeated random starts)", "termination of lll; Newton convergence from random starts", "open finding D16: on ill-conditioned integer bases (transformation entries beyond 2^53, e.g. 6 x 6 lower triangular with entries <= 10^4 and tiny determinant) the f64 implementation returns bases that are not size-reduced; two witnesses are listed in known_findings.jsonl and replayed on every run; H unimodular and B' = H*B still hold there"],
         "assumptions": ["non-singular integer-valued bases with entries small enough for exact f64 representation; positive-definite Gram matrices"],
         "level_text": "Floating point is not modelled, so no theorem speaks about lll / find_short_vectors / find_muk themselves beyond the integer bookkeeping: for every sequence of the operations lll performs on (basis, H), H stays unimodular and the basis equals H*B0 whatever multipliers and swaps the f64 part chooses. Everything that depends on f64 is decided per explored case by exact rational checkers applied to the implementation's real outputs, and the checkers are proved to decide exactly the mathematical notions (grade 'checker'): isReduced <=> rows independent, |mu_ij| <= eta, Lovasz condition for the Gram-Schmidt data (own Gram-Schmidt proved orthogonal with the stated recursion); isPosDef <=> symmetric positive definite (Sylvester's criterion proved over Q); the enumeration box |x_i| <= floor(sqrt(c (Q^-1)_ii)) contains every integer vector with x^T Q x <= c (Cauchy-Schwarz), so the brute-force reference list is complete, sound, duplicate-free and sign-canonical; det and matrix product of the oracles are Mathlib's. Labelled partial.",
         "level_note": "Trusted: Lean kernel + 3 standard axioms; Mathlib Matrix/det; exactness of integer-valued f64 below 2^53; correspondence coverage. Partial: f64 behaviour is outside any theorem.",
